@@ -1,13 +1,509 @@
 // c18 — correspondence harness for property C18 (bytes from untrusted peers never crash or wedge the node).
+//
+// For every case (command, payload, protocol state) it
+//   1. delivers the message to the REAL handler through the dispatch of client/network (verif hook) and
+//      evaluates the property itself there: no panic, every lock free after return, bounded wall time;
+//   2. asks the Lean model (oracle_c18, Model/NetParse.lean) for the outcome of the parsing layer and
+//      compares: outcome class, reject reason (= the DoS / Misbehave reason the real code chose), and the
+//      parsed fields where the real code exposes them (version fields, inv ids, response messages).
+// A separate stream feeds raw wire bytes to FetchMessage, another one fuzzes the library entry points
+// named by the property (NewTx, TxSize, NewBlock, VerifyTxScript, GetOpcode, signature / key parsers,
+// NewAddrFromString) for panics and unbounded time.
 package main
 
 import (
+	"encoding/binary"
+	"encoding/hex"
 	"encoding/json"
 	"fmt"
 	"os"
+	"sort"
+	"strconv"
+	"strings"
 
+	"github.com/piotrnar/gocoin/client/common"
+	"github.com/piotrnar/gocoin/client/network"
+	"github.com/piotrnar/gocoin/lib/btc"
 	"verif/vlib"
 )
+
+// reasons the parsing layer (the model) can produce, per command
+var parseReasons = map[string][]string{
+	"version":     {"VerMsgTooShort", "VerMsgCorrupt", "VerTooLow", "VerNoSegwit", "VerNoService", "VerNullNonce"},
+	"inv":         {"InvEmpty", "InvErr"},
+	"getdata":     {"GetDataLenERR"},
+	"addr":        {"AddrError"},
+	"getblocks":   {"BadGetBlks"},
+	"getheaders":  {"BadGetHdrsA", "BadGetHdrsB"},
+	"headers":     {"HdrErrX", "HdrErr1", "HdrErr2"},
+	"tx":          {"TxRejectedBroken", "TxRejectedLenMismatch"},
+	"block":       {"ShortBlock"},
+	"getblocktxn": {"GetBlockTxnShort", "GetBlockTxnEmpty", "GetBlockTxnERR", "GetBlockTxnIdx+"},
+	"cmpctblock":  {"CmpctBlkErrA", "CmpctBlkErrB", "CmpctBlkErrB2", "CmpctBlkErrB3", "CmpctBlkErrC", "CmpctBlkErrD", "CmpctBlkErrE", "CmpctBlkErrF"},
+	"blocktxn":    {"BlkTxnErrLen", "BlkTxnErrCnt", "BlkTxnErrTx"},
+	"getmp":       {"GetMPError1", "GetMPError2"},
+	"xauth":       {"XAuthMsgCnt", "XAuthMsgShort"},
+}
+
+// reasons chosen behind the parsing layer (not modelled): when the real handler leaves with one of
+// these, the backend decided before / instead of the parser and there is nothing to compare.
+var backendReasons = map[string][]string{
+	"headers":    {"BadHeader"},
+	"cmpctblock": {"BadCmpct"},
+	"block":      {"BadBlock", "BadUnreqBlock"},
+	"addr":       {"BadAdrFuture", "AddrFlood"},
+	"getdata":    {"BadGetCmpctBlk", "GetDataTooBigA", "SendBufferOverflow"},
+	"blocktxn":   {"BadBlkTxnErrBip", "BadBlkTxnNoCOL", "BlkTxnErrMissing"},
+	"getaddr":    {"BadSecondGetAddr"},
+}
+
+func in(s string, xs []string) bool {
+	for _, x := range xs {
+		if x == s {
+			return true
+		}
+	}
+	return false
+}
+
+type Model struct {
+	Kind   string // ok | reject | panic
+	Tag    string // ok tag / reject reason / panic site
+	Nums   []uint64
+	Blobs  [][]byte
+	Locks  string
+	Steps  int
+	RawRep string
+}
+
+func parseModel(rep string) (m Model) {
+	m.RawRep = rep
+	f := strings.Fields(rep)
+	if len(f) < 2 {
+		m.Kind = "bad"
+		return
+	}
+	m.Kind, m.Tag = f[0], f[1]
+	rest := f[2:]
+	if m.Kind == "ok" && len(rest) >= 2 {
+		if rest[0] != "-" {
+			for _, s := range strings.Split(rest[0], ",") {
+				v, _ := strconv.ParseUint(s, 10, 64)
+				m.Nums = append(m.Nums, v)
+			}
+		}
+		if rest[1] != "-" {
+			for _, s := range strings.Split(rest[1], ",") {
+				m.Blobs = append(m.Blobs, vlib.UnHex(s))
+			}
+		}
+		rest = rest[2:]
+	}
+	for _, x := range rest {
+		if strings.HasPrefix(x, "L=") {
+			m.Locks = x[2:]
+		} else if strings.HasPrefix(x, "S=") {
+			m.Steps, _ = strconv.Atoi(x[2:])
+		}
+	}
+	return
+}
+
+type Harness struct {
+	r  *vlib.Run
+	e  *Env
+	rn *Runner
+	o  *vlib.Oracle
+}
+
+// pendingHeader returns the header of a block waiting in BlocksToGet (nil if none).
+func pendingHeader(g *vlib.Rng) []byte {
+	network.MutexRcv.Lock()
+	defer network.MutexRcv.Unlock()
+	var ks []btc.BIDX
+	for k := range network.BlocksToGet {
+		ks = append(ks, k)
+	}
+	if len(ks) == 0 {
+		return nil
+	}
+	sort.Slice(ks, func(i, j int) bool { return string(ks[i][:]) < string(ks[j][:]) })
+	b := network.BlocksToGet[ks[g.Intn(len(ks))]]
+	if b.Block == nil || len(b.Block.Raw) < 80 {
+		return nil
+	}
+	return append([]byte{}, b.Block.Raw[:80]...)
+}
+
+// housekeeping between cases: the queues the main thread would drain, in-progress counters.
+func housekeeping() {
+	for len(network.NetBlocks) > 0 {
+		<-network.NetBlocks
+	}
+	for len(network.NetTxs) > 0 {
+		t := <-network.NetTxs
+		_ = t
+	}
+	network.MutexRcv.Lock()
+	for _, b := range network.BlocksToGet {
+		b.InProgress = 0
+	}
+	network.MutexRcv.Unlock()
+}
+
+// headerAccepted: will ProcessNewHeader hand back a block-to-get for this header?
+func (h *Harness) headerAccepted(hdr []byte) bool {
+	hash := btc.NewSha2Hash(hdr[:80])
+	network.MutexRcv.Lock()
+	defer network.MutexRcv.Unlock()
+	if _, ok := network.BlocksToGet[hash.BIdx()]; ok {
+		return true
+	}
+	if _, ok := network.ReceivedBlocks[hash.BIdx()]; ok {
+		return false
+	}
+	for _, sp := range h.e.Spare {
+		if string(sp[:80]) == string(hdr[:80]) {
+			return true
+		}
+	}
+	return false
+}
+
+func (h *Harness) key(cs Case, o Obs) string {
+	if strings.HasPrefix(cs.Note, "W:") {
+		return cs.Note[2:]
+	}
+	what := "panic"
+	if o.Panic == "" {
+		what = "lock:" + strings.Join(o.Locks, "+")
+		if len(o.Locks) == 0 {
+			what = "slow"
+		}
+	}
+	w := o.Where
+	if i := strings.LastIndex(w, "."); i >= 0 {
+		w = w[i+1:]
+	}
+	return cs.Cmd + ":" + what + ":" + w
+}
+
+// One runs a case through the real code and the model and records the verdicts.
+func (h *Harness) One(cs Case) {
+	r := h.r
+	pl := cs.payload()
+	envNtx := -1
+	authGot := "0"
+	accepted := false
+	collector := false
+	switch cs.Cmd {
+	case "getblocktxn":
+		if len(pl) >= 32 {
+			// the block store is keyed by the first 8 bytes of the hash (btc.BIDX)
+			for k, n := range h.e.NTx {
+				if string(k[:8]) == string(pl[:8]) {
+					envNtx = n
+				}
+			}
+		}
+	case "cmpctblock":
+		if len(pl) >= 80 {
+			accepted = h.headerAccepted(pl[:80])
+		}
+	case "xauth":
+		for _, m := range cs.Seq {
+			if m.Cmd == "xauth" {
+				authGot = "1"
+			}
+		}
+	}
+	o := h.rn.Do(cs)
+	if o.Ms > 200 && os.Getenv("C18_SLOW") != "" {
+		fmt.Fprintf(os.Stderr, "SLOW %s %s %d bytes %.0f ms branch=%s\n", cs.Note, cs.Cmd, len(pl), o.Ms, o.Branch)
+	}
+	if cs.Cmd == "blocktxn" {
+		collector = h.rn.lastCollector
+	}
+	housekeeping()
+	r.Eval("cmd:"+cs.Cmd, cs.Cmd+cs.Pre+cs.Pl+fmt.Sprint(len(cs.Seq)))
+	r.Hit("src:" + strings.SplitN(cs.Note, ":", 2)[0])
+	if cs.has("nover") {
+		r.Hit("state:before-version")
+	} else {
+		r.Hit("state:after-version")
+	}
+	r.Hit(fmt.Sprintf("len:%s", lenClass(len(pl))))
+	r.Sample(map[string]interface{}{"cmd": cs.Cmd, "pre": cs.Pre, "len": len(pl), "pl": clip(cs.Pl), "branch": o.Branch, "ban": o.Ban, "panic": o.Panic})
+
+	// ---- 1. the property on the real code
+	replay := map[string]interface{}{"case": cs, "observed": o}
+	if o.Panic != "" || len(o.Locks) > 0 || o.Hang || o.Ms > 4000 {
+		what := fmt.Sprintf("%s payload of %d bytes: ", cs.Cmd, len(pl))
+		if o.Panic != "" {
+			what += "handler panics (" + o.Panic + " in " + o.Where + ")"
+		}
+		if len(o.Locks) > 0 {
+			what += " locks still held after return: " + strings.Join(o.Locks, ",")
+		}
+		if o.Hang || o.Ms > 4000 {
+			what += fmt.Sprintf(" handler ran %.0f ms", o.Ms)
+		}
+		r.PropFail(h.key(cs, o), what, replay)
+		r.Hit("real:FAIL")
+		return
+	}
+	r.Hit("real:ban=" + o.Ban)
+
+	// ---- 2. the model
+	if cs.Cmd == "@wire" {
+		h.compareWire(cs, o, replay)
+		return
+	}
+	if cs.has("nover") && cs.Cmd != "version" {
+		if o.Branch != "nover" || o.Misbehave != 100 {
+			r.TieFail("gate:"+cs.Cmd, "message before version was not answered with Misbehave(NoVer…,100): "+o.Branch, replay)
+		} else {
+			r.TieOK()
+		}
+		return
+	}
+	if !cs.has("nover") && cs.Cmd == "version" {
+		if o.Branch != "version-again" {
+			r.TieFail("gate:version", "second version not refused", replay)
+		} else {
+			r.TieOK()
+		}
+		return
+	}
+	auth := "0"
+	if cs.has("auth") {
+		auth = "1"
+	}
+	m := parseModel(h.o.MustAsk(fmt.Sprintf("h 1 %s %d %s %s %s", cs.Cmd, envNtx, authGot, auth, vlib.Hex(pl))))
+	replay["model"] = m.RawRep
+	r.Hit("model:" + m.Kind + ":" + m.Tag)
+	if m.Kind == "bad" || m.RawRep == "bad-op" {
+		r.TieFail("oracle:"+cs.Cmd, "oracle refused the request", replay)
+		return
+	}
+	fail := func(why string) {
+		r.TieFail("tie:"+cs.Cmd+":"+m.Kind+":"+m.Tag, cs.Cmd+": "+why+" (model: "+clip(m.RawRep)+"; real: branch="+o.Branch+" ban="+o.Ban+fmt.Sprintf(" misbehave=%d sent=%v", o.Misbehave, o.Sent)+")", replay)
+	}
+	if m.Locks != "-" {
+		fail("model says locks are held at exit but the real handler returned with all locks free")
+		return
+	}
+	reasons := parseReasons[cs.Cmd]
+	if o.Ban != "" && in(o.Ban, backendReasons[cs.Cmd]) && m.Kind != "panic" {
+		r.Hit("tie:backend-decided:" + o.Ban)
+		r.TieOK()
+		return
+	}
+	switch m.Kind {
+	case "panic":
+		fail("model panics, real handler does not")
+		return
+	case "reject":
+		want := m.Tag
+		if cs.Cmd == "version" {
+			want = "Ver" + want
+		}
+		switch {
+		case cs.Cmd == "cmpctblock" && !accepted && m.Tag != "CmpctBlkErrA":
+			// the header was refused before parsing started: backend outcome, nothing to compare
+		case cs.Cmd == "blocktxn" && m.Tag == "BlkTxnErrTx" && (!collector || o.Ban == ""):
+			// no collector, block already complete, or an unknown short id first: the handler left the
+			// transaction loop silently before it reached the undecodable transaction
+		case m.Tag == "TxRejectedNoInputs":
+			if o.Misbehave < 100 {
+				fail("expected Misbehave(TxRejectedNoInputs)")
+				return
+			}
+		case m.Tag == "GetBlockTxnIdx+" || m.Tag == "GetBlockTxnERR" || m.Tag == "GetBlockTxnEmpty" || m.Tag == "GetBlockTxnShort":
+			if o.Ban != want {
+				fail("reject reason differs")
+				return
+			}
+		default:
+			if o.Ban != want {
+				fail("reject reason differs")
+				return
+			}
+		}
+	case "ok":
+		if o.Ban != "" && in(o.Ban, reasons) && !(cs.Cmd == "version") {
+			fail("real handler rejected at the parsing layer, model accepts")
+			return
+		}
+		if why := h.compareFields(cs, o, m, accepted, collector); why != "" {
+			fail(why)
+			return
+		}
+	}
+	r.TieOK()
+}
+
+func clip(s string) string {
+	if len(s) > 160 {
+		return s[:160] + "…"
+	}
+	return s
+}
+
+func lenClass(n int) string {
+	switch {
+	case n == 0:
+		return "0"
+	case n < 37:
+		return "1-36"
+	case n < 90:
+		return "37-89"
+	case n < 1025:
+		return "90-1024"
+	case n < 100000:
+		return "1k-100k"
+	}
+	return ">100k"
+}
+
+// compareFields checks what the real code exposes of the parsed data against the model's fields.
+func (h *Harness) compareFields(cs Case, o Obs, m Model, accepted, collector bool) string {
+	c := h.rn.conn
+	switch cs.Cmd {
+	case "version":
+		if o.Branch != "version" {
+			return "model accepts the version message, real code refused: " + o.Ban
+		}
+		n := c.Node
+		if len(m.Nums) != 7 || len(m.Blobs) < 1 {
+			return "model reply malformed"
+		}
+		agent := []byte{}
+		if len(m.Blobs) > 1 {
+			agent = m.Blobs[1]
+		}
+		dnr := uint64(0)
+		if n.DoNotRelayTxs {
+			dnr = 1
+		}
+		if uint64(n.Version) != m.Nums[0] || n.Services != m.Nums[1] || n.Timestamp != m.Nums[2] || uint64(n.ReportedIp4) != m.Nums[3] ||
+			uint64(n.Height) != m.Nums[4] || dnr != m.Nums[6] || string(n.Nonce[:]) != string(m.Blobs[0]) || n.Agent != string(agent) {
+			return fmt.Sprintf("parsed version fields differ: real ver=%d svc=%x ts=%d ip=%x h=%d dnr=%d agent=%q", n.Version, n.Services, n.Timestamp, n.ReportedIp4, n.Height, dnr, n.Agent)
+		}
+		if !c.X.VersionReceived || !in("verack:0", o.Sent) {
+			return "no verack / VersionReceived not set"
+		}
+	case "inv", "getdata":
+		if m.Tag == "getdata-noop" {
+			return ""
+		}
+		want := int(m.Nums[0])
+		if want > network.MAX_INV_HISTORY {
+			want = network.MAX_INV_HISTORY
+		}
+		if len(c.InvDone.History) != want {
+			return fmt.Sprintf("entries stored: real %d, model %d", len(c.InvDone.History), m.Nums[0])
+		}
+		if want > 0 && want < network.MAX_INV_HISTORY {
+			last := m.Blobs[len(m.Blobs)-1]
+			if len(last) >= 16 {
+				id := binary.LittleEndian.Uint64(last[8:16])
+				if c.InvDone.History[want-1] != id {
+					return "last stored inventory id differs"
+				}
+			}
+		}
+	case "getblocktxn":
+		if m.Tag == "getblocktxn" {
+			if len(o.sentRaw) != 1 || o.sentRaw[0].Cmd != "blocktxn" {
+				return "no blocktxn reply"
+			}
+			rp := o.sentRaw[0].Pl
+			// reply = hash, CompactSize(indexes_length as sent), the transactions
+			if len(rp) < 33 || string(rp[:32]) != string(cs.payload()[:32]) {
+				return "blocktxn reply names another block"
+			}
+		} else if len(o.Sent) != 0 {
+			return "reply sent for an unknown block"
+		}
+	case "getheaders":
+		if !in0(o.Sent, "headers:") {
+			return "no headers reply"
+		}
+	case "headers", "addr", "getblocks", "tx", "block", "getmp", "xauth", "feefilter", "sendcmpct", "pong":
+		if cs.Cmd == "feefilter" && m.Tag == "feefilter" && uint64(c.X.MinFeeSPKB) != m.Nums[0] {
+			return "feefilter value differs"
+		}
+		if cs.Cmd == "sendcmpct" && m.Tag == "sendcmpct" && m.Nums[0] > 0 && c.Node.SendCmpctVer != m.Nums[0] && !cs.has("cv2") {
+			return "sendcmpct version differs"
+		}
+	case "cmpctblock":
+		if !accepted {
+			return ""
+		}
+	case "blocktxn":
+	}
+	return ""
+}
+
+func in0(xs []string, prefix string) bool {
+	for _, x := range xs {
+		if strings.HasPrefix(x, prefix) {
+			return true
+		}
+	}
+	return false
+}
+
+func (h *Harness) compareWire(cs Case, o Obs, replay map[string]interface{}) {
+	r := h.r
+	hk, vr := "0", "1"
+	if cs.has("nover") {
+		vr = "0"
+	}
+	m := parseModel(h.o.MustAsk(fmt.Sprintf("f 1 %s %s %s %s", hk, vr, vlib.Hex(common.Magic[:]), vlib.Hex(cs.payload()))))
+	replay["model"] = m.RawRep
+	r.Hit("model:fetch:" + m.Kind + ":" + m.Tag)
+	fail := func(why string) {
+		r.TieFail("tie:fetch:"+m.Kind+":"+m.Tag, "FetchMessage: "+why+" (model: "+clip(m.RawRep)+"; real: "+o.Branch+" ban="+o.Ban+")", replay)
+	}
+	st := h.rn.lastState
+	switch m.Kind {
+	case "panic":
+		fail("model panics, real code does not")
+		return
+	case "reject":
+		if m.Tag == "NetBadMagic" {
+			if st.Why != "NetBadMagic" {
+				fail("expected disconnect NetBadMagic, got " + st.Why)
+				return
+			}
+		} else if o.Ban != m.Tag {
+			fail("reject reason differs")
+			return
+		}
+	case "ok":
+		switch m.Tag {
+		case "need-more":
+			if !strings.HasPrefix(o.Branch, "fetched:0") || o.Ban != "" {
+				fail("model waits for more bytes")
+				return
+			}
+		case "msg":
+			f := strings.Fields(o.Branch)
+			want := fmt.Sprintf("%s:%d", string(m.Blobs[0]), m.Nums[0])
+			if len(m.Blobs) > 0 && len(f) >= 2 && f[1] != want {
+				fail("first message differs: want " + want)
+				return
+			}
+			if len(f) < 2 {
+				fail("no message fetched")
+				return
+			}
+		}
+	}
+	r.TieOK()
+}
 
 func main() {
 	r := vlib.NewRun("C18")
@@ -18,11 +514,125 @@ func main() {
 		probe(e, rn)
 		return
 	}
-	_ = rn
-	r.Finish("todo", "todo")
+	o, err := vlib.StartOracle("c18")
+	if err != nil {
+		fmt.Fprintln(os.Stderr, "cannot start oracle:", err)
+		os.Exit(3)
+	}
+	defer o.Close()
+	h := &Harness{r: r, e: e, rn: rn, o: o}
+	r.Assume = []string{
+		"the handlers are called through VerifDispatch (client/network/verif_export.go), a copy of the body of Run's loop; gen_c18 re-extracts Run's command table and gate on every run and Lean compares them with the frozen copy",
+		"what lies behind the parsing layer (peer database, header acceptance, mempool matching, block queue) runs for real in the harness but is NOT modelled; the model's verdict is compared up to the point where the backend decides",
+		"client globals are initialised by the harness the way client/init.go + client/main.go do (synthetic easy-PoW chain from go/chainkit, empty mempool, temp-dir peers database)",
+		"getmp counts between 2^24 and 2^62 are kept out of the generated stream: ProcessGetMP passes the peer's count as size hint to make(map) (authorised peers only; an out-of-memory abort cannot be observed in-process)",
+	}
+
+	if r.Replay != "" {
+		var doc struct {
+			Replay struct {
+				Case Case `json:"case"`
+				Lib  *LibCase `json:"lib"`
+			} `json:"replay"`
+		}
+		b, err := os.ReadFile(r.Replay)
+		if err != nil || json.Unmarshal(b, &doc) != nil {
+			fmt.Fprintln(os.Stderr, "cannot read replay file")
+			os.Exit(3)
+		}
+		if doc.Replay.Lib != nil {
+			libOne(r, *doc.Replay.Lib)
+		} else {
+			h.One(doc.Replay.Case)
+		}
+		r.Finish("replay of one recorded case", "replay")
+	}
+
+	// 1. corpus (edge inputs + the witnesses of the seven repaired defects)
+	for _, cs := range Corpus(e) {
+		h.One(cs)
+	}
+	// 2. old-guard witnesses: the model with the pre-fix guards must panic / leak on them (keeps the
+	//    counterexample theorems tied to the oracle the harness uses)
+	h.oldWitnesses()
+	// 3. generated
+	gen := &Gen{e: e, g: r.Rng.Fork(), r: r}
+	n := r.N(6000, 120000)
+	for i := 0; i < n; i++ {
+		cmd := Commands[gen.g.Intn(len(Commands))]
+		cs := gen.Structured(cmd)
+		h.One(cs)
+		if gen.g.Chance(1, 3) {
+			h.One(gen.Mutate(cs))
+		}
+		if i%8 == 0 {
+			h.One(gen.Wire())
+		}
+	}
+	// 4. boundary lengths: every command at 0..limit edges
+	h.boundaries(gen)
+	// 5. library entry points
+	libFuzz(r, e, r.Rng.Fork(), r.N(4000, 80000))
+
+	r.Extra["spare_headers_used"] = e.SpareIdx
+	r.Finish("one case = (command, payload bytes, protocol state[, preceding messages]); distinct = distinct (command,state,payload); corpus of edge inputs and defect witnesses first, then per-command structured generators with lying counts / CompactSize forms / wrapping counts, a mutated copy of every third case, raw wire bytes for FetchMessage, boundary lengths, library entry points",
+		"Real handlers (client/network via verif hook, on a synthetic chain) are run on every case and checked for panic / locks held after return (c.Mutex, Mutex_net, MutexRcv, TxMutex, peersdb, cfg and 7 more) / wall time; the Lean model of the parsing layer is asked for the same payload and outcome class, reject reason and exposed parsed fields are compared. Theorems (Props/C18) are about that model; the backend behind the parser is exercised but not modelled.")
 }
 
-func hx(s string) string { return s }
+func (h *Harness) oldWitnesses() {
+	type w struct{ cmd, pl, wantKind, wantLocks string; ntx int }
+	v82 := make([]byte, 82)
+	v82[80] = 2
+	ws := []w{
+		{"version", H(v82), "panic", "c.Mutex", -1},
+		{"inv", H(cat(vintForm((1<<62)+1, 9), make([]byte, 36))), "panic", "-", -1},
+		{"inv", H(cat(vintForm(wrapCount(36, 40), 9), make([]byte, 40))), "panic", "c.Mutex", -1},
+		{"getblocktxn", H(cat(make([]byte, 32), vint(1), vintForm(1<<63, 9))), "panic", "-", 5},
+	}
+	for _, x := range ws {
+		m := parseModel(h.o.MustAsk(fmt.Sprintf("h 0 %s %d 0 0 %s", x.cmd, x.ntx, x.pl)))
+		if m.Kind != x.wantKind || m.Locks != x.wantLocks {
+			h.r.TieFail("oldmodel:"+x.cmd, "pre-fix model no longer reproduces the witness: "+m.RawRep, map[string]interface{}{"cmd": x.cmd, "pl": x.pl})
+		} else {
+			h.r.TieOK()
+			h.r.Hit("oldmodel:witness-reproduced")
+		}
+	}
+}
+
+// boundaries: payload lengths around every guard constant and at the per-command limit.
+func (h *Harness) boundaries(gen *Gen) {
+	lens := []int{0, 1, 3, 4, 5, 8, 9, 32, 33, 34, 36, 37, 79, 80, 81, 82, 83, 86, 88, 89, 90, 91, 99, 100, 101}
+	for _, cmd := range Commands {
+		max := int(network.VerifMaxMsgSize(cmd))
+		ls := append([]int{}, lens...)
+		if h.r.Thorough() || max <= 200000 {
+			ls = append(ls, max-1, max)
+		}
+		for _, n := range ls {
+			if n < 0 || n > max {
+				continue
+			}
+			for _, fill := range []byte{0x00, 0xff, 0x01, 0xfd} {
+				pl := make([]byte, n)
+				for i := range pl {
+					pl[i] = fill
+				}
+				if cmd == "getmp" {
+					pl = capHugeCount(pl)
+				}
+				pre := ""
+				if cmd == "version" {
+					pre = "nover"
+				}
+				if cmd == "getmp" {
+					pre = "auth"
+				}
+				h.One(Case{Cmd: cmd, Pl: hex.EncodeToString(pl), Pre: pre, Note: "boundary"})
+			}
+		}
+	}
+}
 
 func probe(e *Env, rn *Runner) {
 	for _, cs := range Corpus(e) {
@@ -33,5 +643,3 @@ func probe(e *Env, rn *Runner) {
 		}
 	}
 }
-
-var _ = vlib.Hex
